@@ -16,6 +16,7 @@
 -/
 import AxVerif.Lemmas.Cache
 import AxVerif.Generated.Cache
+import AxVerif.Thm.C10
 namespace AxVerif.Cache
 open AxVerif
 
@@ -277,15 +278,122 @@ theorem generated_constants_match :
 
 end Configuration
 
-/-! ## The SQL-level statement (not claimed here) -/
+/-! ## Lifting to the users of the pager: results do not depend on the configuration
 
-/-- NOT CLAIMED as a theorem. The full SQL-level statement of C12 for an engine semantics `run` (configuration →
-    statements → answers): any two configurations in the documented ranges answer every workload identically unless
-    one of them reports out-of-memory. What is proved above is its storage half — the pager answers independently of
-    the cache capacity (`capacity_irrelevant`, `outputs_refine_store`) and the settings reach the engine unchanged
-    (`config_roundtrip`). The other half — results independent of the page geometry (page size, min keys, siblings)
-    and of the pool size — needs the logical database model and C10's tree theorems (`geometry_irrelevant` in DESIGN §5);
-    here it is only *tested*, by the configuration grid of engine `cache` (`grid` cases). -/
+  Everything above the pager — B+tree, catalog, executor — is a *client* of it: a deterministic program that chooses its
+  next pager operation from the answers received so far (`Client`). The theorems below say that such a client cannot
+  tell which cache capacity it runs on, as long as it never pins as many frames as the cache holds: no hypothesis
+  about out-of-memory is left, the bound on the pins implies there is none. A page's content is one number in the model,
+  which loses nothing: whole page images can be numbered. -/
+
+/-- **Any client, any capacity above its pin bound, sees the flat store.** If the client's dialogue with the flat
+    store never has `bound` or more frames pinned at once (and checkpoints with none pinned), then against the real
+    pager with any capacity `cap` with `bound ≤ min cap 65535` — 65 535 being what page zero can record, which is what a
+    re-opened pager runs with — the dialogue is *identical*: same operations, same answers, no out-of-memory, for
+    any number of steps, any number of evictions, write-backs, checkpoints and re-opens in between. -/
+theorem client_sees_flat_store (cap bound : Nat) (hb : bound ≤ min cap 65535) (client : Client) (n : Nat)
+    (hok : Spec.clientOk bound client n {} [] = true) :
+    Pager.interact Defects.none client n (Pager.init cap) [] = Spec.interact client n {} [] :=
+  interact_refines cap bound hb client n _ _ [] (init_coupled cap) (init_capOk cap) hok
+
+/-- **Results are independent of the cache size.** The same client on two pagers of different capacities, both at
+    least the client's pin bound: identical dialogues, hence identical results of whatever the client computes. -/
+theorem results_independent_of_capacity (cap₁ cap₂ bound : Nat) (h₁ : bound ≤ min cap₁ 65535)
+    (h₂ : bound ≤ min cap₂ 65535) (client : Client) (n : Nat) (hok : Spec.clientOk bound client n {} [] = true) :
+    Pager.interact Defects.none client n (Pager.init cap₁) [] =
+      Pager.interact Defects.none client n (Pager.init cap₂) [] := by
+  rw [client_sees_flat_store cap₁ bound h₁ client n hok, client_sees_flat_store cap₂ bound h₂ client n hok]
+
+/-- The same, stated on configurations as `DBConfig::new` makes them: page size, pool size, min keys and siblings do
+    not reach the pager at all (its behaviour is a function of the cache size alone), and the cache size does not show. -/
+theorem results_independent_of_configuration (c₁ c₂ : Config.Config) (bound : Nat)
+    (h₁ : bound ≤ min c₁.cacheSize 65535) (h₂ : bound ≤ min c₂.cacheSize 65535) (client : Client) (n : Nat)
+    (hok : Spec.clientOk bound client n {} [] = true) :
+    Pager.interact Defects.none client n (Pager.init (Config.effectiveAtCreate Defects.none c₁).cacheCapacity) [] =
+      Pager.interact Defects.none client n (Pager.init (Config.effectiveAtCreate Defects.none c₂).cacheCapacity) [] :=
+  results_independent_of_capacity _ _ bound h₁ h₂ client n hok
+
+/-- For a fixed operation list the pin bound alone excludes out-of-memory … -/
+theorem no_oom_above_pin_bound (cap bound : Nat) (hb : bound ≤ min cap 65535) (ops : List POp)
+    (hadm : Spec.admissible {} ops = true) (hpins : Spec.pinBounded bound {} ops = true) :
+    NoOom ((Pager.init cap).run Defects.none ops).2 :=
+  run_no_oom cap bound hb ops _ _ (init_coupled cap) (init_capOk cap) hadm hpins
+
+/-- … so every capacity at or above the bound gives the same observable reads (the refinement theorem with its
+    out-of-memory hypothesis discharged). -/
+theorem reads_independent_of_capacity (cap₁ cap₂ bound : Nat) (h₁ : bound ≤ min cap₁ 65535)
+    (h₂ : bound ≤ min cap₂ 65535) (ops : List POp) (hadm : Spec.admissible {} ops = true)
+    (hpins : Spec.pinBounded bound {} ops = true) (p : Nat) :
+    readThrough ((Pager.init cap₁).run Defects.none ops).1 p = readThrough ((Pager.init cap₂).run Defects.none ops).1 p ∧
+    OutsAgree ops ((Pager.init cap₁).run Defects.none ops).2 (Spec.run {} ops).2 ∧
+    OutsAgree ops ((Pager.init cap₂).run Defects.none ops).2 (Spec.run {} ops).2 :=
+  ⟨capacity_irrelevant _ _ cap₁ cap₂ ops (no_oom_above_pin_bound cap₁ bound h₁ ops hadm hpins)
+      (no_oom_above_pin_bound cap₂ bound h₂ ops hadm hpins) hadm p,
+   outputs_refine_store _ cap₁ ops (no_oom_above_pin_bound cap₁ bound h₁ ops hadm hpins) hadm,
+   outputs_refine_store _ cap₂ ops (no_oom_above_pin_bound cap₂ bound h₂ ops hadm hpins) hadm⟩
+
+/-- The bound is sharp: a client that pins as many frames as the cache holds does run out of memory (capacity 2, two
+    pins, a third page), and the same client is fine with one more frame. -/
+theorem pin_bound_is_sharp :
+    ((Pager.init 2).run Defects.none [.alloc, .alloc, .alloc, .pin 1, .pin 2, .read 3]).2.getLast? = some .oom ∧
+    ((Pager.init 3).run Defects.none [.alloc, .alloc, .alloc, .pin 1, .pin 2, .read 3]).2.getLast? = some (.val 0) ∧
+    Spec.pinBounded 3 {} [.alloc, .alloc, .alloc, .pin 1, .pin 2, .read 3] = true ∧
+    Spec.pinBounded 2 {} [.alloc, .alloc, .alloc, .pin 1, .pin 2, .read 3] = false := by
+  decide
+
+/-- the hypotheses are satisfiable by a client that adapts to what it reads: it allocates two pages, writes 5 into
+    the first, reads it back, and writes what it read plus one into the second -/
+example :
+    let client : Client := fun hist =>
+      match hist with
+      | [] => some .alloc
+      | [_] => some .alloc
+      | [_, _] => some (.write 1 5)
+      | [_, _, _] => some (.read 1)
+      | [_, _, _, .val v] => some (.write 2 (v + 1))
+      | [_, _, _, _, _] => some (.read 2)
+      | _ => none
+    Spec.clientOk 1 client 10 {} [] = true ∧
+    (Pager.interact Defects.none client 10 (Pager.init 1) []).getLast? = some (.read 2, .val 6) := by
+  decide
+
+/-! ### page geometry
+
+  Page size, minimum keys per page and siblings per side decide the *shape* of a B+tree, i.e. which client of the
+  pager the tree code is. That every shape answers alike is C10's subject; its verified checker has no geometry
+  parameter, so the statement needed here is a corollary of `C10.checkTree_sound`. -/
+
+/-- **Geometry is irrelevant to the answers.** Two page graphs — built under any page sizes, minimum-key and sibling
+    settings — that the checker accepts and that hold the same contents answer every point lookup, the forward scan and
+    the backward scan identically; in particular so do two graphs whose contents are the ordered-map fold of the same
+    operations, which is what C10's engine establishes for every geometry it runs (4–16 KiB pages, 3–16 min keys,
+    1–8 siblings) and the configuration grid below re-checks through SQL. -/
+theorem geometry_irrelevant (d₁ d₂ : AxVerif.BTree.Dump) (h₁ : AxVerif.BTree.checkTree d₁ = true)
+    (h₂ : AxVerif.BTree.checkTree d₂ = true) (hc : AxVerif.BTree.toList d₁ = AxVerif.BTree.toList d₂) :
+    (∀ k, AxVerif.BTree.lookup d₁ k = AxVerif.BTree.lookup d₂ k) ∧
+    AxVerif.BTree.leafScan d₁ = AxVerif.BTree.leafScan d₂ ∧
+    AxVerif.BTree.leafScanBack d₁ = AxVerif.BTree.leafScanBack d₂ := by
+  obtain ⟨_, _, _, _, hs₁, hl₁, _⟩ := AxVerif.C10.checkTree_sound d₁ h₁
+  obtain ⟨_, _, _, _, hs₂, hl₂, _⟩ := AxVerif.C10.checkTree_sound d₂ h₂
+  refine ⟨fun k => by rw [hl₁ k, hl₂ k, hc], by rw [hs₁, hs₂, hc], ?_⟩
+  rw [AxVerif.C10.checkTree_sound_backward d₁ h₁, AxVerif.C10.checkTree_sound_backward d₂ h₂, hc]
+
+/-! ## The SQL-level statement -/
+
+/-- The full SQL-level statement of C12 for an engine semantics `run` (configuration → statements → answers): any
+    two configurations in the documented ranges answer every workload identically unless one of them reports
+    out-of-memory. It is a statement about the Rust engine as a whole and stays a `def`. What the theorems above
+    contribute to it, and what is left to the tie:
+    * storage: every client of the pager gets the flat store's answers for every cache capacity above its pin bound
+      (`client_sees_flat_store`, `results_independent_of_capacity`) — proved, unbounded;
+    * settings: what is requested is what the engine runs with (`config_roundtrip`, `header_roundtrip_requested`) — proved;
+    * geometry: accepted page graphs with equal contents answer alike (`geometry_irrelevant`, from C10) — proved; that
+      the tree code produces accepted graphs with the right contents under every geometry is C10's tie (checked dump
+      after every operation), not a theorem about the Rust code;
+    * the logical database model (Model/Db.lean, C03–C09) takes no configuration argument at all;
+    * that the engine is such a client — deterministic, reaching its data only through the pager — and the pool size
+      are covered by the configuration grids of engine `cache` (`grid`, `sqlgrid`, `histgrid` cases: the same script under
+      page 4–64 KiB, cache 8–4096, min keys 3–8, siblings 1–4, pool 1–8; identical canonical results required). -/
 def sql_results_independent_of_configuration_statement {Stmt Answer : Type}
     (run : Config.Config → List Stmt → List Answer) (isOom : Answer → Bool) : Prop :=
   ∀ (c₁ c₂ : Config.Config) (w : List Stmt),
